@@ -185,20 +185,27 @@ pub fn assemble(ctx: &mut Ctx, c: &Value) -> (Vec<u8>, bool) {
 }
 
 fn verdict(ctx: &Ctx, kind: &str, bytes: Vec<u8>, revoked: bool) -> (bool, String) {
-    verdict_under(ctx, &ctx.issuer, kind, bytes, revoked)
+    verdict_under(ctx, &ctx.issuer, kind, bytes, revoked, true)
 }
 
-fn verdict_under(ctx: &Ctx, issuer: &ResourceCert, kind: &str, bytes: Vec<u8>, revoked: bool) -> (bool, String) {
+/// serial number of the EE certificates `assemble` embeds
+const EE_SERIAL: u64 = 4711;
+
+fn verdict_under(ctx: &Ctx, issuer: &ResourceCert, kind: &str, bytes: Vec<u8>, revoked: bool, strict: bool) -> (bool, String) {
     let _ = ctx;
-    let crl = |_: &Cert| -> Result<(), ValidationError> {
-        if revoked { Err(rpki::repository::error::VerificationError::new("certificate revoked").into()) } else { Ok(()) }
+    // the callback is a revocation list: with `revoked` it lists the serial number of the embedded EE certificate and nothing else,
+    // so its verdict depends on the certificate it is shown
+    let crl = |c: &Cert| -> Result<(), ValidationError> {
+        if revoked && c.serial_number() == rpki::repository::x509::Serial::from(EE_SERIAL) {
+            Err(rpki::repository::error::VerificationError::new("certificate revoked").into())
+        } else { Ok(()) }
     };
     let b = Bytes::from(bytes);
     let r: Result<(), String> = match kind {
-        "roa" => Roa::decode(b, true).map_err(|e| format!("decode: {e}")).and_then(|o| o.process(issuer, true, crl).map(|_| ()).map_err(|e| format!("validate: {e}"))),
-        "aspa" => Aspa::decode(b, true).map_err(|e| format!("decode: {e}")).and_then(|o| o.process(issuer, true, crl).map(|_| ()).map_err(|e| format!("validate: {e}"))),
-        "mft" => Manifest::decode(b, true).map_err(|e| format!("decode: {e}")).and_then(|o| o.validate_at(issuer, true, Time::now()).map(|_| ()).map_err(|e| format!("validate: {e}"))),
-        _ => SignedObject::decode(b, true).map_err(|e| format!("decode: {e}")).and_then(|o| o.validate_at(issuer, true, Time::now()).map(|_| ()).map_err(|e| format!("validate: {e}"))),
+        "roa" => Roa::decode(b, strict).map_err(|e| format!("decode: {e}")).and_then(|o| o.process(issuer, strict, crl).map(|_| ()).map_err(|e| format!("validate: {e}"))),
+        "aspa" => Aspa::decode(b, strict).map_err(|e| format!("decode: {e}")).and_then(|o| o.process(issuer, strict, crl).map(|_| ()).map_err(|e| format!("validate: {e}"))),
+        "mft" => Manifest::decode(b, strict).map_err(|e| format!("decode: {e}")).and_then(|o| o.validate_at(issuer, strict, Time::now()).map(|_| ()).map_err(|e| format!("validate: {e}"))),
+        _ => SignedObject::decode(b, strict).map_err(|e| format!("decode: {e}")).and_then(|o| o.validate_at(issuer, strict, Time::now()).map(|_| ()).map_err(|e| format!("validate: {e}"))),
     };
     match r { Ok(()) => (true, String::new()), Err(m) => (false, m) }
 }
@@ -210,26 +217,31 @@ pub fn replay(args: &[String]) {
     for c in &cases {
         let kind = c["kind"].as_str().unwrap().to_string();
         let want = c["accept"].as_bool().unwrap();
-        let r = guarded(|| {
-            let (bytes, revoked) = assemble(&mut ctx, c);
-            if c["f"]["cover"] == "ipinherit" {
-                verdict_under(&ctx, &ctx.issuer_as_only, &kind, bytes, revoked)
-            } else {
-                verdict(&ctx, &kind, bytes, revoked)
+        // strict and relaxed mode; the statement is silent about unknown signed attributes, which relaxed mode skips
+        for strict in [true, false] {
+            if !strict && !c["relaxed"].as_bool().unwrap_or(true) {
+                continue;
             }
-        });
-        match r {
-            Err(m) => s.violation("panic", m, c.clone()),
-            Ok((got, why)) => {
-                if got != want {
-                    let devs: Vec<String> = c["f"].as_object().unwrap().iter().filter(|(_, v)| *v != "ok").map(|(k, v)| format!("{k}={}", v.as_str().unwrap())).collect();
-                    if want {
-                        s.violation(&format!("rejects-valid:{kind}:{}", c["size"].as_str().unwrap()), format!("a conforming {kind} object (attribute size class {}) is rejected: {why}", c["size"]), c.clone());
-                    } else {
-                        s.violation(&format!("accepts-invalid:{kind}:{}", devs.join("+")), format!("{kind} object with {devs:?} is accepted"), c.clone());
+            let mode = if strict { "" } else { ":relaxed" };
+            let r = guarded(|| {
+                let (bytes, revoked) = assemble(&mut ctx, c);
+                let issuer = if c["f"]["cover"] == "ipinherit" { &ctx.issuer_as_only } else { &ctx.issuer };
+                verdict_under(&ctx, issuer, &kind, bytes, revoked, strict)
+            });
+            match r {
+                Err(m) => s.violation("panic", m, c.clone()),
+                Ok((got, why)) => {
+                    if got != want {
+                        let devs: Vec<String> = c["f"].as_object().unwrap().iter().filter(|(_, v)| *v != "ok").map(|(k, v)| format!("{k}={}", v.as_str().unwrap())).collect();
+                        if want {
+                            s.violation(&format!("rejects-valid:{kind}:{}{mode}", c["size"].as_str().unwrap()), format!("a conforming {kind} object (attribute size class {}) is rejected{mode}: {why}", c["size"]), c.clone());
+                        } else {
+                            s.violation(&format!("accepts-invalid:{kind}:{}{mode}", devs.join("+")), format!("{kind} object with {devs:?} is accepted{mode}"), c.clone());
+                        }
                     }
                 }
             }
+            s.evals(if strict { 0 } else { 1 });
         }
         s.eval_if(!want, &format!("{c}"));
         if s.samples.len() < 3 && s.evaluations % 401 == 9 { s.sample(c.clone()); }
